@@ -29,9 +29,19 @@ type c28Case struct {
 	DevSecret    string `json:"device_code_client_secret"`
 	UseIDToken   bool   `json:"use_id_token_as_bearer"`
 	HostilePath  bool   `json:"hostile_path,omitempty"` // last path segment ends in `<param>=`
+	// Query: raw query of the resource URL ("" = none). Validation only asks
+	// for a parseable URL, so this includes characters a header value cannot
+	// carry unescaped; if validation refuses the resource the case ends there.
+	Query string `json:"query,omitempty"`
 }
 
-func (c c28Case) resource() string { return c.Scheme + "://" + c.Host + c.Path }
+func (c c28Case) resource() string {
+	r := c.Scheme + "://" + c.Host + c.Path
+	if c.Query != "" {
+		r += "?" + c.Query
+	}
+	return r
+}
 
 // The parameter names of the header, from the RFC 9728 text and the
 // OAuthResourceMetadata field documentation.
@@ -91,6 +101,9 @@ func genC28(t *rapid.T) c28Case {
 	if rapid.IntRange(0, 2).Draw(t, "trail?") == 0 {
 		c.Path += "/"
 	}
+	if rapid.IntRange(0, 3).Draw(t, "query?") == 0 {
+		c.Query = []string{"tenant=acme", "a=1&b=2", "y=%22quoted%22", `y=", client_id="evil`, `y="`, "y=a b", `y=a\b`, "client_id=evil", `y=",use_id_token_as_bearer="true`}[rapid.IntRange(0, 8).Draw(t, "query")]
+	}
 	c.ClientID = genC28Value(t, "client_id")
 	c.ClientSecret = genC28Value(t, "client_secret")
 	c.DevID = genC28Value(t, "dev_id")
@@ -138,8 +151,16 @@ func runC28(c c28Case) (out lib.Outcome) {
 	}
 	hs := newHTTP(vgirpc.NewServer())
 	hs.SetAuthenticate(rejectValueError)
+	if c.Query != "" {
+		out.Label("resource-with-query")
+	}
 	if err := hs.SetOAuthResourceMetadata(meta); err != nil {
-		// every generated value is inside the validated alphabet, so this is a harness error
+		if c.Query != "" {
+			// not "allowed by validation": nothing is advertised
+			out.Label("resource-refused-by-validation")
+			return
+		}
+		// every other generated value is inside the validated alphabet, so this is a harness error
 		out.Violate("C28/harness-metadata-refused", "generated metadata was refused by validation: %v", err)
 		return
 	}
@@ -165,6 +186,12 @@ func runC28(c c28Case) (out lib.Outcome) {
 	if trimmed != "" && trimmed != c.Path {
 		// a non-root trailing slash: the statement does not say whether it is kept
 		wantURLs = append(wantURLs, c.Scheme+"://"+c.Host+wk+c.Path)
+	}
+	if c.Query != "" {
+		// the query stays on the well-known URL (RFC 9728 section 3.1)
+		for i := range wantURLs {
+			wantURLs[i] += "?" + c.Query
+		}
 	}
 
 	type field struct{ name, want, got, longer, longerWant string }
@@ -201,11 +228,11 @@ func runC28(c c28Case) (out lib.Outcome) {
 
 var propC28 = lib.Prop[c28Case]{
 	ID: "C28",
-	Rule: "OAuth resource metadata with generated resource URLs (http/https, names, IPv4/IPv6 literals, ports, 0-3 path segments incl. parameter-name words, optional trailing slash, 1/8 with a tail spelling `<param>=`; never a double quote), each of the four optional string fields independently absent (40%), a parameter-name-like word (20%) or a random value from the validated alphabet, id-token flag on/off; " +
+	Rule: "OAuth resource metadata with generated resource URLs (http/https, names, IPv4/IPv6 literals, ports, 0-3 path segments incl. parameter-name words, optional trailing slash, 1/8 with a tail spelling `<param>=`; a quarter with a query string, some of them carrying double quotes, backslashes or blanks — if validation accepts such a resource the header has to carry it recoverably), each of the four optional string fields independently absent (40%), a parameter-name-like word (20%) or a random value from the validated alphabet, id-token flag on/off; " +
 		"header obtained from a real 401; the six Parse* functions must return exactly the configured values (absent = empty/false) and the URL assembled from the generated components. Non-trivial: a proper, non-empty subset of the five optional fields is set.",
 	Gen:          genC28,
 	Run:          runC28,
-	Essential:    []string{"proper-subset", "devid-without-clientid", "devsecret-without-clientsecret", "optional-set:0", "optional-set:5", "trailing-slash", "hostile-path"},
+	Essential:    []string{"proper-subset", "devid-without-clientid", "devsecret-without-clientsecret", "optional-set:0", "optional-set:5", "trailing-slash", "hostile-path", "resource-with-query"},
 	EssentialMin: 500,
 	Assumptions: []string{
 		"for a resource whose non-root path ends in '/', both keeping and dropping that slash in the well-known URL are accepted (the statement is silent)",
